@@ -73,7 +73,22 @@ pub fn op_lef(args: &[Sexp]) -> String {
     let code = match args.get(1).and_then(|a| a.int()) { Some(c) => c as u64, None => return "bad-op".into() };
     let (ncs, macs) = match crate::props::c16::parse_case(&args[2..]) { Some(x) => x, None => return "bad-op".into() };
     let mut lib = crate::props::c16::to_leflib(ncs, &macs);
+    // (the C16 cases may carry values in every field; `fixed_mask` is a pinned known finding of its own)
+    lib.fixed_mask = false;
+    for m in lib.macros.iter_mut() { m.fixed_mask = false; }
     decorate(&mut lib, code);
+    let s = match fmt.to_string(&lib) { Ok(s) => s, Err(_) => return "err".into() };
+    match fmt.from_str::<LefLibrary>(&s) { Ok(l2) => format!("ok {}", of_bool(l2 == lib)), Err(_) => "err".into() }
+}
+/// `serde.leflib <fmt> <libseed>`: a library of the full LEF generator (every statement kind, every optional
+/// attribute present / absent / present-but-empty) through the markup format and back. The two fields pinned
+/// as known findings (`fixed_mask`) are cleared first: their loss is reported by `serde.lefspecial` only.
+pub fn op_leflib(args: &[Sexp]) -> String {
+    let fmt = match args.get(0).and_then(fmt_of) { Some(f) => f, None => return "bad-op".into() };
+    let seed = match args.get(1).and_then(|a| a.int()) { Some(c) => c as u64, None => return "bad-op".into() };
+    let mut lib = crate::props::lef::gen_lib(seed);
+    lib.fixed_mask = false;
+    for m in lib.macros.iter_mut() { m.fixed_mask = false; }
     let s = match fmt.to_string(&lib) { Ok(s) => s, Err(_) => return "err".into() };
     match fmt.from_str::<LefLibrary>(&s) { Ok(l2) => format!("ok {}", of_bool(l2 == lib)), Err(_) => "err".into() }
 }
@@ -110,7 +125,7 @@ pub fn oracle(line: &str) -> String {
                 format!("fail {} copy differs at char {}: …{}… vs …{}…", p[1], i, &res[i.saturating_sub(25)..res.len().min(i + 30)], &want[i.saturating_sub(25)..want.len().min(i + 30)])
             }
         }
-        "serde.gdsbytes" | "serde.lef" | "serde.lefspecial" => if res == "ok #t" { "pass".into() } else { format!("fail {} {} copy is not equal to the original ({})", p[0], p[1], res) },
+        "serde.gdsbytes" | "serde.lef" | "serde.leflib" | "serde.lefspecial" => if res == "ok #t" { "pass".into() } else { format!("fail {} {} copy is not equal to the original ({})", p[0], p[1], res) },
         _ => "na".into(),
     }
 }
@@ -133,6 +148,9 @@ pub fn gen(thorough: bool, rng: &mut Rng, out: &mut Vec<String>) {
     crate::props::c16::gen(false, rng, &mut tmp);
     for (i, c) in tmp.drain(..).take(n).enumerate() {
         out.push(c.replacen("lefraw.import", &format!("serde.lef {} {}", if i % 2 == 0 { "json" } else { "yaml" }, rng.below(64)), 1));
+    }
+    for i in 0..n / 2 {
+        out.push(format!("serde.leflib {} {}", if i % 2 == 0 { "json" } else { "yaml" }, crate::props::lef::LIBSEED_V2 + rng.next() % 1_000_000_007));
     }
     out.push("serde.lefspecial json plain".into());
     out.push("serde.lefspecial yaml plain".into());
